@@ -57,3 +57,30 @@ Proof. vm_compute. discriminate. Qed.
 Theorem C15_repaired_refuses : is_ok (dec_fee_info (JObj both_alternatives)) = false.
 Proof. reflexivity. Qed.
 
+
+(* finding 15 (C13, C08): walking a listing in REVERSE by following next keys.  The SDK starts a reverse
+   page at the end of the range of keys that have the requested key as a byte prefix
+   (PrefixEndBytes(prefix ++ key)); the last string of a store key is written without a terminator, so
+   with counterparties "1" and "10" the page requested from key "1" starts at "10" again: the walk serves
+   "10" for ever and never reaches "1".  The repaired listing helper starts exactly at the requested key,
+   which is what Model/Page.v [paginate] does. *)
+From Coq Require Import Ascii NArith.
+From Orbiter Require Import Model.State Model.Page.
+Fixpoint prefix_end (s : string) : string :=          (* PrefixEndBytes on a non-empty key not ending in 0xFF *)
+  match s with
+  | "" => ""
+  | String c "" => String (ascii_of_N (N_of_ascii c + 1)) ""
+  | String c r => String c (prefix_end r)
+  end.
+(* one reverse page of size 1 from a key, as the pinned code served it: (item, next key) *)
+Definition legacy_reverse_page (sorted : list string) (key : string) : option string * option string :=
+  let from := drop_while (fun a => match cmp_str a (prefix_end key) with Lt => false | _ => true end) (rev sorted) in
+  (hd_error from, hd_error (tl from)).
+Theorem C13_legacy_refuted :
+  (* the listing is "1", "10", "2" in key order; the walk is at key "1" *)
+  legacy_reverse_page ["1"; "10"; "2"] "1" = (Some "10", Some "1") /\
+  (* the repaired page from the same key: the entry itself, and nothing after it *)
+  paginate cmp_str (fun s : string => s) ["1"; "10"; "2"]
+    {| pr_key := Some "1"; pr_offset := 0; pr_limit := 1; pr_count_total := false; pr_reverse := true |}
+  = Ok {| pg_items := ["1"]; pg_next := None; pg_total := 0 |}.
+Proof. vm_compute. split; reflexivity. Qed.
